@@ -336,8 +336,10 @@ def psk_map_rule(repo: Repo, rep: Report, ci: ClassInfo) -> int:
             g, _node = label_generator(cc, {"self.gray_coding": False, "not self.gray_coding": True})
             if key == lv and val == lv and g == "id":
                 rep.ok("LABEL", cc, s, "binary labelling: row i is binary(i), the map is the identity", node=s)
-            elif g != "id":
+            elif g == "gray":
                 rep.violation("LABEL", cc, s, f"the identity map is used although the binary-labelling rows are binary({g})", node=s)
+            elif g != "id":
+                rep.undecided("LABEL", cc, s, "label generator of the binary labelling not recognised", node=s)
             else:
                 rep.violation("LABEL", cc, s, f"identity map expected for binary labels, found map[{key}] = {val}", node=s)
     rep.expect(len(stores) == 2, "LABEL", cc, f"{len(stores)} store(s) into bit_to_symbol_map", "one per labelling", "expected one store per labelling")
